@@ -471,10 +471,10 @@ def p_C13(ctx):
                 "distinct by (implementor, shape, stack, op, args)")
     ctx.assumptions = ACC_ASSUME
     shapes = [0, 11, 13, 31, 23, 32, 33] if ctx.quick else ALL_SHAPES4
-    r = acc_tlc(ctx, "prims", ["prim"], shapes, kinds=("owned", "plain", "slice_m"), depth=1,
+    r = acc_tlc(ctx, "prims", ["prim"], shapes, kinds=("owned", "plain", "torus", "slice_m"), depth=1,
                 bigs=(BIG_MAX, BIG_WRAP) if ctx.quick else (BIG_MAX, BIG_HALF1, BIG_P32, BIG_WRAP), workers=8 if ctx.quick else 12)
     # b3 / b1 / w80: Copy element types of 3, 1 and 80 bytes (word-at-a-time, memset and "large element" fast paths)
-    combos = [("dev", "u32"), ("release", "elem"), ("dev", "elem"), ("release", "b3"), ("release", "b1"), ("release", "w80")]
+    combos = [("dev", "u32"), ("release", "elem"), ("dev", "elem"), ("release", "b3"), ("release", "b1"), ("release", "w80"), ("dev", "a128")]
     if not ctx.quick:
         combos += [("release", "u32"), ("dev", "zst"), ("dev", "b3"), ("dev", "b1"), ("dev", "w80")]
     acc_replays(ctx, r, combos, "prims")
@@ -494,7 +494,8 @@ def p_C14(ctx):
     shapes = [0, 11, 13, 31, 23, 32, 33] if ctx.quick else ALL_SHAPES4
     r = acc_tlc(ctx, "copies", ["copy"], shapes, kinds=("owned", "plain", "slice_m"), depth=1,
                 bigs=(BIG_MAX,) if ctx.quick else (BIG_MAX, BIG_HALF1, BIG_WRAP), workers=8 if ctx.quick else 12)
-    combos = [("dev", "u32"), ("release", "b3"), ("dev", "elem"), ("release", "w80"), ("release", "b1")] + ([] if ctx.quick else [("release", "u32"), ("dev", "b3"), ("dev", "w80")])
+    # z0: zero-sized Copy cells (nothing to move, every check must still be made); a128: alignment 128 (dev: std's pointer checks)
+    combos = [("dev", "u32"), ("release", "b3"), ("dev", "elem"), ("release", "w80"), ("release", "b1"), ("release", "z0"), ("dev", "a128")] + ([] if ctx.quick else [("release", "u32"), ("dev", "b3"), ("dev", "w80")])
     acc_replays(ctx, r, combos, "copies")
     acc_random(ctx, ["copy"], 9000 if ctx.quick else 80000, 12, profile="dev", large_share=0.4)
     acc_random(ctx, ["copy"], 6000 if ctx.quick else 40000, 12, profile="release", label="big-rel", large_share=0.4)
@@ -510,9 +511,9 @@ def p_C15(ctx):
     n = 6 if ctx.quick else 9
     big_shapes = [c * 10 + r for c in range(1, n + 1) for r in range(1, n + 1)] + [0]
     r = acc_tlc(ctx, "moves-owned", ["move"], big_shapes, kinds=("owned", "plain"), depth=0, workers=8)
-    acc_replays(ctx, r, [("dev", "u32"), ("release", "elem"), ("release", "w80")], "moves-owned")
+    acc_replays(ctx, r, [("dev", "u32"), ("release", "elem"), ("release", "w80"), ("dev", "a128")], "moves-owned")
     r2 = acc_tlc(ctx, "moves-views", ["move"], [13, 31, 23, 32, 33] if ctx.quick else ALL_SHAPES4, kinds=("owned", "slice_m"), depth=1, workers=8)
-    acc_replays(ctx, r2, [("dev", "u32"), ("release", "b3"), ("dev", "elem"), ("release", "b1"), ("release", "w80")], "moves-views")
+    acc_replays(ctx, r2, [("dev", "u32"), ("release", "b3"), ("dev", "elem"), ("release", "b1"), ("release", "w80"), ("dev", "a128"), ("release", "z0")], "moves-views")
     acc_random(ctx, ["move"], 4000 if ctx.quick else 60000, 16, profile="dev")
     acc_random(ctx, ["move"], 2000 if ctx.quick else 30000, 16, profile="release", elem="elem", label="big-elem")
     # 1 KiB elements: rows of a few dozen cells are already "larger than the cache" for any byte-size-gated path
@@ -526,7 +527,7 @@ def sort_pipeline(ctx, by):
     shapes = [0, 11, 13, 31, 23, 32, 33, 14, 41] if ctx.quick else ALL_SHAPES4
     r = acc_tlc(ctx, "sorts", [grp], shapes, kinds=("owned", "plain", "slice_m"), depth=1,
                 bigs=(BIG_MAX, BIG_WRAP), workers=8 if ctx.quick else 12)
-    combos = [("dev", "u32"), ("release", "elem"), ("release", "b3"), ("release", "w80")]      # w80: an 80-byte element
+    combos = [("dev", "u32"), ("release", "elem"), ("release", "b3"), ("release", "w80"), ("dev", "a128")]      # w80: an 80-byte element
     if not ctx.quick:
         combos += [("dev", "elem"), ("release", "u32"), ("dev", "b3"), ("dev", "w80")]
     acc_replays(ctx, r, combos, "sorts")
@@ -679,7 +680,9 @@ SERDE_ASSUME = ["serde and serde_json (textual encoding, number parsing, key del
 def attr_serde(case, fail):
     kind = fail["kind"]
     stratum = case.get("stratum") or ""
-    if kind.startswith("rt."):
+    if kind.startswith("fault."):
+        props = {"C11"} | ({"C05"} if kind.endswith("double_drop") else set())      # a destructor panicked inside deserialize_in_place
+    elif kind.startswith("rt."):
         props = {"C18"}
     elif kind in ("abort", "hang"):
         # the process died: a round-trip case exercises serialisation + deserialisation, a document case only the latter
@@ -874,14 +877,18 @@ def p_C11(ctx):
     combos = [("dev", "elem", 0), ("release", "elem", 1), ("release", "tok", 0)] + ([] if ctx.quick else [("dev", "elem", 2), ("dev", "zst", 0), ("release", "u32", 0), ("dev", "tok", 1)])
     for prof, elem, cap in combos:
         ctx.replay_and_validate(r.cases_path, attr_fault_replay, attr_fault_event, profile=prof, elem=elem, cap=cap, label="faults")
+    # serde's Deserialize::deserialize_in_place on arrays of resource-owning elements: a destructor of an old element panics
+    rs = serde_tlc(ctx, "serde-roundtrip", ["roundtrip"], 0)
+    ctx.replay(rs.cases_path, attr_serde, profile="dev", label="in-place-drop-faults")
     # code -> spec: random long histories (incl. LARGE arrays) with faults / leaks injected at random calls; everything after a
     # fault is validated from the state the real crate was left in ("then or later")
     def attr_fault_drive_event(case, ev):
         f = ev.get("fault", {})
         return ({"C11"} if f.get("kind") in ("panic_at", "lie") else {"C11", "C12"}) | ({"C05"} if ledger_evidence(ev) else set()), {"family": "fault-drive", "op": ev.get("ev"), "kind": "trace_rejected", "fault": f.get("kind")}
     nh, steps = (250, 40) if ctx.quick else (3000, 80)
-    # w1k: 1 KiB elements - a few dozen cells already exceed byte-size thresholds of "large array" paths
-    for prof, seed_off, el in (("dev", 21, "elem"), ("release", 22, "tok"), ("release", 23, "w1k")):
+    # w4k: one page per element - a few dozen cells already exceed byte-size thresholds of "large array" paths, and the
+    # element itself exceeds element-size thresholds
+    for prof, seed_off, el in (("dev", 21, "elem"), ("release", 22, "tok"), ("release", 23, "w4k")):
         ctx.drive_and_validate("drive-faults-" + el, ["hist", ctx.seed + seed_off, nh, steps, 6, "{out}", el, "faults"], "TooDeeTrace",
                                attr_fault_drive_event, profile=prof, invariants=("ShapeOK", "HandleOK"))
 
@@ -898,7 +905,7 @@ def p_C12(ctx):
     r = hist_tlc_edges(ctx, "leaks", m, m, ops=("leak_borrow",), faults=("forget",), workers=4)
     ctx.count_nontrivial(r.cases_path, fault_key)
     ctx.sample_from(r.cases_path)
-    combos = [("dev", "elem", 0), ("release", "elem", 1), ("dev", "zst", 0), ("release", "tok", 0)] + ([] if ctx.quick else [("dev", "u32", 2), ("release", "zst", 1), ("dev", "tok", 2)])
+    combos = [("dev", "elem", 0), ("release", "elem", 1), ("dev", "zst", 0), ("release", "tok", 0), ("release", "w4k", 1)] + ([] if ctx.quick else [("dev", "u32", 2), ("release", "zst", 1), ("dev", "tok", 2)])
     for prof, elem, cap in combos:
         ctx.replay_and_validate(r.cases_path, attr_fault_replay, attr_fault_event, profile=prof, elem=elem, cap=cap, label="leaks")
     # environment overlay: memory exhaustion during the call that creates the drain (a fallback path taken only then
@@ -915,8 +922,9 @@ def p_C12(ctx):
         f = ev.get("fault", {})
         return ({"C12"} if f.get("kind") == "forget" else {"C11", "C12"}) | ({"C05"} if ledger_evidence(ev) else set()), {"family": "fault-drive", "op": ev.get("ev"), "kind": "trace_rejected", "fault": f.get("kind")}
     nh, steps = (250, 40) if ctx.quick else (3000, 80)
-    # w1k: 1 KiB elements - a few dozen cells already exceed byte-size thresholds of "large array" paths
-    for prof, seed_off, el in (("dev", 21, "elem"), ("release", 22, "tok"), ("release", 23, "w1k")):
+    # w4k: one page per element - a few dozen cells already exceed byte-size thresholds of "large array" paths, and the
+    # element itself exceeds element-size thresholds
+    for prof, seed_off, el in (("dev", 21, "elem"), ("release", 22, "tok"), ("release", 23, "w4k")):
         ctx.drive_and_validate("drive-faults-" + el, ["hist", ctx.seed + seed_off, nh, steps, 6, "{out}", el, "faults"], "TooDeeTrace",
                                attr_fault_drive_event, profile=prof, invariants=("ShapeOK", "HandleOK"))
 
